@@ -27,6 +27,7 @@ FN_PROPS = [
     (r"lemma_setv_\w+|lemma_set_\w+", LAT),
     (r"add|mul|zero|one|lemma_semiring_\w+", ["C09"]),
     (r"semigroup|monoid|commutative_monoid|group|abelian_group|distributive|semiring|ring|commutative_ring|integral_domain|field", ["C09"]),
+    (r"identity|inverse|nonzero_inverse|absorbing_element|idempotency|no_nonzero_zero_divisors", ["C09"]),
 ]
 
 
@@ -103,12 +104,16 @@ VERUS_UNITS["uf_dfir"] = {
 
 VERUS_UNITS["alg_compose"] = {
     "template": "contracts/verus/alg_compose.rs.in", "props": ["C09"],
-    "what": "algebra.rs composite law checkers (semigroup .. field): Ok iff every law of the named structure holds, for every carrier type, "
-            "N and closure, proved modularly against the leaf checkers' contracts (assumed here, checked by Kani alg::n1..n3)",
+    "what": "algebra.rs: the six plain-loop leaf checkers (identity, inverse, nonzero_inverse, absorbing_element, idempotency, no_nonzero_zero_divisors; real "
+            "bodies + loop invariants) return Ok iff the law, written out over the items, holds; the 11 composite checkers (semigroup .. field) "
+            "return Ok iff every law of the named structure holds, proved modularly against the leaf contracts -- for every carrier type, N and closure. "
+            "The four cartesian_power leaves (associativity, commutativity, left/right_distributes) are assumed by contract here and checked by Kani alg::n1..n3",
     "canaries": [(r"monoid\(items, g, one\)\?;", "monoid(items, g, zero.clone())?;", "semiring"),
                  (r"commutativity\(items, g\)\?;", "commutativity(items, f)?;", "commutative_ring"),
-                 (r"right_distributes\(items, f, g\)\?;", "left_distributes(items, f, g)?;", "distributive")],
-    "twins": ["alg::c1", "alg::c2"],
+                 (r"right_distributes\(items, f, g\)\?;", "left_distributes(items, f, g)?;", "distributive"),
+                 (r"if f\(e\.clone\(\), a\.clone\(\)\) != a\.clone\(\)", "if f(a.clone(), a.clone()) != a.clone()", "identity"),
+                 (r"if \*a != zero && \*b != zero", "if *a != zero || *b != zero", "no_nonzero_zero_divisors")],
+    "twins": ["alg::c1", "alg::c2", "alg::n1", "alg::n2"],
 }
 
 # ---------------------------------------------------------------------------------------------- Kani
@@ -116,8 +121,8 @@ VERUS_UNITS["alg_compose"] = {
 KANI_UNITS = {
     "vk_lat": {
         "mode": "dep", "crate": "contracts/kani/vk_lat", "props": LAT,
-        "harness_props": [(r"^alg::", ["C09"]), (r"^coll3::tombstone", ["C05", "C02", "C03"]), (r"^coll3::atomize", ["C06"]),
-                          (r"^coll3::(cartesian|keyed)", ["C07"])],
+        "harness_props": [(r"^alg::", ["C09"]), (r"^coll3::tombstone", ["C05", "C02", "C03", "C04"]), (r"^coll3::(deep_)?atomize", ["C06"]),
+                          (r"^coll3::(cartesian|deep_keyed)", ["C07"])],
         "what": "lattices twins (C01-C04 executable contract forms) on monomorphic instantiations; Conflict::merge; Max/Min over char, (); Point",
         "instantiation": "u8 / char / () payloads, nestings of depth <= 2; loop-free => complete for the instantiation",
         "bounded": {r"^coll::": "collection operands of <= 2 elements (cheap representations + harness TinySet/TinyMap receivers), keys/elements over all u8",
@@ -207,9 +212,9 @@ PROPS = {
             ("kani", "vk_lat", ["::order", "::bot", "::top", "c03_withbot_unit_is_top", "c03_set_union_full_bool_is_top", "point_u8", "coll::set_cmp", "coll::set_bot_top_from",
                                 "coll::map_bot_top_from", "coll::set_bot_every", "coll::map_cmp", "coll2::vec_union_cmp", "coll2::union_find_cmp", "coll3::tombstone_set_cmp"], ("thorough",))],
     "C04": [("verus", "lat_ord"), ("verus", "lat_wrap"), ("verus", "lat_pair"), ("verus", "lat_dom"), ("verus", "lat_set"),
-            ("kani", "vk_lat", ["::from", "::aci", "point_u8", "dompair_incomparable_keys", "coll::set_merge", "coll::set_bot_top_from", "coll::map_merge_option",
+            ("kani", "vk_lat", ["::from", "::aci", "point_u8", "dompair_incomparable_keys", "coll3::tombstone_set_lattice_from", "coll::set_merge", "coll::set_bot_top_from", "coll::map_merge_option",
                                 "coll::map_merge_singleton", "coll::map_bot_top_from", "coll2::vec_union_merge", "coll2::vec_union_cmp"], ("quick",)),
-            ("kani", "vk_lat", ["::from", "::aci", "point_u8", "dompair_incomparable_keys", "coll::set_merge", "coll::set_bot_top_from", "coll::map_merge",
+            ("kani", "vk_lat", ["::from", "::aci", "point_u8", "dompair_incomparable_keys", "coll3::tombstone_set_lattice_from", "coll::set_merge", "coll::set_bot_top_from", "coll::map_merge",
                                 "coll::map_bot_top_from", "coll2::vec_union_merge", "coll2::vec_union_cmp", "coll2::union_find_union",
                                 "coll2::union_find_merge"], ("thorough",))],
 }
@@ -243,13 +248,12 @@ PROPS["C10"] = [("kani", "vk_var", ["harness::column_"], ("quick",)),
 
 PROPS["C05"] = [("kani", "vk_lat", ["coll3::tombstone_set", "coll3::tombstone_map_merge_one_entry"], ("quick",)),
                 ("kani", "vk_lat", ["coll3::tombstone"], ("thorough",))]
-PROPS["C06"] = [("kani", "vk_lat", ["coll3::atomize_set_union"], ("quick",)),
+PROPS["C06"] = [("kani", "vk_lat", ["coll3::atomize_set_union", "coll3::atomize_map_union_any_value_iterator"], ("quick",)),
                 ("kani", "vk_lat", ["coll3::atomize"], ("thorough",))]
 PROPS["C07"] = [("verus", "lat_pair"),
                 ("kani", "vk_lat", ["coll3::cartesian_product_is_product"], ("quick",)),
-                ("kani", "vk_lat", ["coll3::cartesian", "coll3::keyed"], ("thorough",))]
+                ("kani", "vk_lat", ["coll3::cartesian"], ("thorough",))]
 
-# quick: every harness under ~60 s; thorough adds the `slow_` ones (MergeOrderedHook with two non-empty inputs, TopLevelFoldHook with 2 items)
 PROPS["C17"] = [("verus", "uf_dfir")]
 
 PROPS["C36"] = [("kani", "vk_sim", ["harness::run_hooks", "harness::stream_", "harness::release_", "harness::singleton_", "harness::passthrough_",
